@@ -210,7 +210,9 @@ func runProp(t *testing.T, id string, draw func(*rapid.T) *core.Case) {
 	rapid.Check(t, func(rt *rapid.T) {
 		c := draw(rt)
 		c.Prop = id
+		t0 := time.Now()
 		v := getChild().Run(c, caseTimeout())
+		noteDuration(time.Since(t0))
 		record(c, v)
 		if v.Status == "crash" || v.Status == "hang" {
 			v.Detail = fmt.Sprintf("query: %s\nwindow: start=%d end=%d step=%d (steps=%d) procs=%d series=%d fault=%v\n%s", c.Query, c.Start, c.End, c.Step, c.NumSteps(), c.Procs, len(c.Series), c.Fault, v.Detail)
@@ -287,3 +289,13 @@ func runEnum(t *testing.T, id string, each func(yield func(*core.Case) bool)) {
 }
 
 func nan() float64 { var z float64; return z / z }
+
+// noteDuration keeps the longest case duration (ms) for the evidence file: it shows
+// how far the per-case watchdog is from ordinary executions.
+func noteDuration(d time.Duration) {
+	statMu.Lock()
+	if ms := int(d / time.Millisecond); ms > stat.Extra["max_case_ms"] {
+		stat.Extra["max_case_ms"] = ms
+	}
+	statMu.Unlock()
+}
